@@ -313,6 +313,20 @@ func genHSScript(rng *Rng) (bool, []string, []string) {
 // clauses of the property judged directly on what reached the wire.
 func hsSuite(r *Run, prop string) {
 	rng := r.Rng.Fork("hs")
+	// HS.txt: "<client-streams 0|1> <req items, comma separated, or -> <op;op;...>"
+	for _, f := range corpusLines("HS") {
+		if len(f) != 3 {
+			continue
+		}
+		var req []string
+		if f[1] != "-" {
+			req = strings.Split(f[1], ",")
+		}
+		sc := runHSScript(f[0] == "1", req, strings.Split(f[2], ";"))
+		r.Op(sc.line(), sc.answer())
+		r.Count("corpus:HS")
+		r.Eval(sc.line(), hsOracle(r, prop, sc))
+	}
 	n := r.Budget(300, 6000)
 	for i := 0; i < n; i++ {
 		cs, req, ops := genHSScript(rng)
